@@ -304,6 +304,36 @@ def _swallow(f):
 task_order.contract_fn = "curves.Curve.knot_remove"
 
 
+# --------------------------------------------------------------------------------------
+# engine B: FLOAT data whose removal is exact even in double arithmetic (dyadic knots and control points): "guaranteed success whenever the knots are exactly
+# removable" at several magnitudes of the control points.  From about 1e4 on the rounding noise of the error form (about 1e-16 |P|^2) exceeds the absolute
+# tolerance 1e-9 and the removal is refused: known finding D45 (the obligation ids carry the scale, so a refusal at a smaller scale is a new violation)
+# --------------------------------------------------------------------------------------
+def task_float_magnitude():
+    from ..report import FAILED, PROVED, ob
+    fn = "curves.Curve.knot_remove"
+    out = []
+    for scale in (1, 512, 8192, 65536):
+        bad = None
+        try:
+            base = [1.0 * scale, -2.0 * scale, 3.0 * scale, 1.0 * scale]
+            c = curves.Curve([0.0] * 4 + [2.0] * 4, list(base))
+            c.knot_insert([1.0])
+            c.knot_remove([1.0])
+            if list(c.knotvector) != [0.0] * 4 + [2.0] * 4 or any(abs(a - b) > 1e-9 * scale for a, b in zip(c.ctrlpoints, base)):
+                bad = "insert then remove gives knots %s, points %s" % (list(c.knotvector), list(c.ctrlpoints))
+        except ValueError as e:
+            bad = "an exactly removable knot is refused: %s" % str(e)[:80]
+        except Exception as e:
+            bad = "%s: %s" % (type(e).__name__, str(e)[:100])
+        out.append(ob("%s:float-magnitude[%d]" % (fn, scale), fn, FAILED if bad else PROVED, "B", "concrete", 0.0,
+                      bad or "knot_insert([1.0]) then knot_remove([1.0]) restores the dyadic float curve", dict(kind="c05.floatmag", scale=scale) if bad else None))
+    return out + [{"_stats": dict(cases=len(out))}]
+
+
+task_float_magnitude.contract_fn = "curves.Curve.knot_remove"
+
+
 def tasks(tier, seed):
     from ..pyvc.driver import verify
     from ..contracts import curvesv
@@ -315,7 +345,7 @@ def tasks(tier, seed):
             # rational curves: the whole path is the known finding D9; a small sample keeps it visible without paying for blow-ups
             if variant == 0 and sh in ((1, (1,)), (2, (1,))) or (tier != "quick" and variant == 0 and sh[0] in (1, 2) and len(sh[1]) == 1):
                 ts.append((task_remove, (sh, variant, ks, U, True, tier)))
-    ts += [(task_order, (name,)) for name in ORDER_CASES]
+    ts += [(task_order, (name,)) for name in ORDER_CASES] + [(task_float_magnitude, ())]
     from . import kinds
     ts += [(kinds.task_kinds, ("C05", op)) for op in kinds.OPS["C05"][1]]
     return ts
@@ -327,6 +357,9 @@ def replay(o):
     if w["kind"] == "kinds":
         from . import kinds
         return kinds.replay(o)
+    if w["kind"] == "c05.floatmag":
+        r = [x for x in task_float_magnitude() if "id" in x and x["id"].endswith("[%d]" % w["scale"])][0]
+        return r["status"] == "failed", "insert then remove restores the curve", r["detail"]
     if w["kind"] == "c05.order":
         r = task_order(w["case"])[0]
         return r["status"] == FAILED, "same result in every history; interpolation at the remaining knots", r["detail"]
